@@ -396,3 +396,263 @@ Lemma null_guard_skip : forall (brs : list branch) (ev : event) (nonnull : strin
   lookup nonnull st = Some (t, VBool false) ->
   exec_stmt brs ev (ng_lower nonnull guarded) st = ROk st.
 Proof. intros brs ev nn g st t H. unfold ng_lower. rewrite exec_if, eval_var, H. reflexivity. Qed.
+
+(* ================================================================================================ *)
+(* First                                                                                             *)
+(* ================================================================================================ *)
+Definition for_loop (brs : list branch) (ev : event) (x : string) (b : block) : list value -> state -> Exec.res state :=
+  fix loop (l : list value) (st : state) {struct l} : Exec.res state :=
+  match l with
+  | [] => ROk st
+  | v :: r => rbind (exec_block brs ev b [(x, ("auto", v))] st) (fun st' => loop r st')
+  end.
+Lemma for_loop_nil : forall brs ev x b (st : state), for_loop brs ev x b [] st = ROk st.
+Proof. reflexivity. Qed.
+Lemma for_loop_cons : forall brs ev x b (v : value) (r : list value) (st : state),
+  for_loop brs ev x b (v :: r) st =
+  rbind (exec_block brs ev b [(x, ("auto", v))] st) (fun st' => for_loop brs ev x b r st').
+Proof. reflexivity. Qed.
+
+Lemma exec_for : forall (brs : list branch) (ev : event) (x : string) (e : cexp) (b : block) (st : state),
+  exec_stmt brs ev (SFor x e b) st =
+  rbind (eval ev st e) (fun c =>
+    match c with
+    | VVec l => for_loop brs ev x b l st
+    | _ => RStuck (KType "range of a for loop is not a vector")
+    end).
+Proof. reflexivity. Qed.
+
+Lemma pop_enter : forall (pre : frame) (st : state), pop_frame (enter pre st) = st.
+Proof. intros pre st. destruct st; reflexivity. Qed.
+
+Lemma throw_if_armed : forall (brs : list branch) (ev : event) (isf line : string) (st : state) (t : string),
+  lookup isf st = Some (t, VBool true) ->
+  exec_stmt brs ev (fi_throw isf line) st = RFault FThrow.
+Proof. intros brs ev isf line st t H. unfold fi_throw. rewrite exec_if, eval_var, H. reflexivity. Qed.
+
+Lemma throw_if_done : forall (brs : list branch) (ev : event) (isf line : string) (st : state) (t : string),
+  lookup isf st = Some (t, VBool false) ->
+  exec_stmt brs ev (fi_throw isf line) st = ROk st.
+Proof. intros brs ev isf line st t H. unfold fi_throw. rewrite exec_if, eval_var, H. reflexivity. Qed.
+
+(* ---- generic: ANY loop body that honours the First contract ---- *)
+Section FirstGeneric.
+Variable brs : list branch.
+Variable ev : event.
+Variables isf x line tb : string.
+Variable body : block.
+Variable p : value -> bool.          (* the element passes the guards *)
+Variable Q : value -> Prop.          (* the elements under consideration *)
+Variable Done : state -> Prop.
+
+Let step (v : value) (st : state) := exec_block brs ev body [(x, ("auto", v))] st.
+Let Armed (st : state) := lookup isf st = Some (tb, VBool true).
+
+(* a rejected element executes nothing that lasts *)
+Hypothesis H_rej : forall v st, Q v -> p v = false -> Armed st -> step v st = ROk st.
+(* the capture disarms the flag *)
+Hypothesis H_cap : forall v st st', Q v -> p v = true -> Armed st -> step v st = ROk st' -> Done st'.
+Hypothesis H_done_flag : forall st, Done st -> lookup isf st = Some (tb, VBool false).
+(* once disarmed, later elements change nothing *)
+Hypothesis H_done : forall v st, Q v -> Done st -> step v st = ROk st.
+
+Lemma loop_done : forall (l : list value) (st : state),
+  Forall Q l -> Done st -> for_loop brs ev x body l st = ROk st.
+Proof.
+  induction l as [|v r IH]; intros st HQ HD; [reflexivity|rewrite for_loop_cons].
+  inversion HQ as [|? ? Hv Hr]; subst.
+    fold (step v st). rewrite (H_done v st Hv HD). cbn [rbind]. apply IH; assumption.
+Qed.
+
+Lemma loop_armed : forall (l : list value) (st : state),
+  Forall Q l -> Armed st ->
+  for_loop brs ev x body l st =
+  match first_passing p l with
+  | None => ROk st
+  | Some w => step w st
+  end.
+Proof.
+  induction l as [|v r IH]; intros st HQ HA; [reflexivity|rewrite for_loop_cons].
+  - inversion HQ as [|? ? Hv Hr]; subst. unfold first_passing. cbn [filter].
+    destruct (p v) eqn:E.
+    + fold (step v st). destruct (step v st) as [st'|f|k] eqn:S; cbn [rbind]; try reflexivity.
+      apply loop_done; [assumption|]. apply (H_cap v st st' Hv E HA S).
+    + fold (step v st). rewrite (H_rej v st Hv E HA). cbn [rbind].
+      rewrite (IH st Hr HA). reflexivity.
+Qed.
+
+Lemma first_generic : forall (coll : cexp) (l : list value) (st : state),
+  Forall Q l -> Armed st -> eval ev st coll = ROk (VVec l) ->
+  exec_stmts brs ev (fi_lower isf x coll body line) st =
+  match first_passing p l with
+  | None => RFault FThrow
+  | Some w => step w st
+  end.
+Proof.
+  intros coll l st HQ HA He. unfold fi_lower. rewrite exec_stmts_cons, exec_for, He. cbn [rbind].
+  rewrite (loop_armed l st HQ HA).
+  destruct (first_passing p l) as [w|] eqn:F.
+  - destruct (step w st) as [st'|f|k] eqn:S; cbn [rbind]; try reflexivity.
+    rewrite exec_one.
+    assert (HD : Done st').
+    { unfold first_passing in F. destruct (filter p l) as [|w' r] eqn:Fl; [discriminate|].
+      inversion F; subst w'.
+      assert (Hin : In w (filter p l)) by (rewrite Fl; left; reflexivity).
+      apply filter_In in Hin. destruct Hin as [Hin Hp].
+      rewrite Forall_forall in HQ. apply (H_cap w st st' (HQ w Hin) Hp HA S). }
+    apply (throw_if_done brs ev isf line st' tb (H_done_flag st' HD)).
+  - cbn [rbind]. rewrite exec_one. apply (throw_if_armed brs ev isf line st tb HA).
+Qed.
+End FirstGeneric.
+
+(* ---- the schema of call_First with a chain of per-element guard conditions ---- *)
+(* guard k is evaluated inside k nested (declaration-free) blocks, exactly as the emitted ifs nest *)
+Fixpoint guards_pass (ev : event) (s : state) (conds : list cexp) : Exec.res bool :=
+  match conds with
+  | [] => ROk true
+  | c :: r => rbind (eval ev s c) (fun v => rbind (truth v) (fun t =>
+                if t then guards_pass ev (enter [] s) r else ROk false))
+  end.
+
+Fixpoint nest_run (ev : event) (k : state -> Exec.res state) (conds : list cexp) (s : state) : Exec.res state :=
+  match conds with
+  | [] => k s
+  | c :: r => rbind (eval ev s c) (fun v => rbind (truth v) (fun t =>
+                if t then rbind (nest_run ev k r (enter [] s)) (fun s2 => ROk (pop_frame s2)) else ROk s))
+  end.
+
+Lemma guards_exec : forall (brs : list branch) (ev : event) (inner : stmt) (conds : list cexp) (s : state),
+  exec_stmt brs ev (fi_guards conds inner) s = nest_run ev (exec_stmt brs ev inner) conds s.
+Proof.
+  intros brs ev inner conds. induction conds as [|c r IH]; intros s; cbn [fi_guards nest_run].
+  - reflexivity.
+  - rewrite exec_if. destruct (eval ev s c) as [v|f|k]; cbn [rbind]; try reflexivity.
+    destruct (truth v) as [t|f|k]; cbn [rbind]; try reflexivity.
+    destruct t; [|reflexivity].
+    rewrite exec_block_eq. cbn [run_decls rbind]. rewrite exec_one. rewrite IH.
+    destruct (nest_run ev (exec_stmt brs ev inner) r (enter [] s)); reflexivity.
+Qed.
+
+Lemma nest_reject : forall (ev : event) (k : state -> Exec.res state) (conds : list cexp) (s : state),
+  guards_pass ev s conds = ROk false -> nest_run ev k conds s = ROk s.
+Proof.
+  intros ev k conds. induction conds as [|c r IH]; intros s H; cbn [guards_pass nest_run] in *.
+  - discriminate.
+  - destruct (eval ev s c) as [v|f|kk]; cbn [rbind] in *; try discriminate.
+    destruct (truth v) as [t|f|kk]; cbn [rbind] in *; try discriminate.
+    destruct t; [|reflexivity].
+    rewrite (IH _ H). cbn [rbind]. rewrite pop_enter. reflexivity.
+Qed.
+
+Lemma lookup_enter_nil : forall (y : string) (s : state), lookup y (enter [] s) = lookup y s.
+Proof. intros y s. reflexivity. Qed.
+
+Lemma lookup_enter_other : forall (y x t : string) (v : value) (s : state),
+  String.eqb y x = false -> lookup y (enter [(x, (t, v))] s) = lookup y s.
+Proof. intros y x t v s H. unfold lookup, enter. cbn [frames members frames_get frame_get]. rewrite H. reflexivity. Qed.
+
+(* if the flag is already false the capture does not run, whatever the guards say (provided they evaluate) *)
+Lemma nest_disarmed : forall (brs : list branch) (ev : event) (isf : string) (ds : list decl) (downstream : stmts)
+                             (tb : string) (conds : list cexp) (s : state) (b : bool),
+  guards_pass ev s conds = ROk b ->
+  lookup isf s = Some (tb, VBool false) ->
+  nest_run ev (exec_stmt brs ev (fi_capture isf ds downstream)) conds s = ROk s.
+Proof.
+  intros brs ev isf ds downstream tb conds. induction conds as [|c r IH]; intros s b H Hl;
+    cbn [guards_pass nest_run] in *.
+  - unfold fi_capture. rewrite exec_if, eval_var, Hl. reflexivity.
+  - destruct (eval ev s c) as [v|f|kk]; cbn [rbind] in *; try discriminate.
+    destruct (truth v) as [t|f|kk]; cbn [rbind] in *; try discriminate.
+    destruct t; [|reflexivity].
+    rewrite (IH (enter [] s) b H); [|rewrite lookup_enter_nil; exact Hl].
+    cbn [rbind]. rewrite pop_enter. reflexivity.
+Qed.
+
+Lemma fi_body_step : forall (brs : list branch) (ev : event) (isf : string) (conds : list cexp) (ds : list decl)
+                            (downstream : stmts) (pre : frame) (st : state),
+  exec_block brs ev (fi_body isf conds ds downstream) pre st =
+  rbind (nest_run ev (exec_stmt brs ev (fi_capture isf ds downstream)) conds (enter pre st))
+        (fun s2 => ROk (pop_frame s2)).
+Proof.
+  intros. unfold fi_body. rewrite exec_block_eq. cbn [run_decls rbind]. rewrite exec_one, guards_exec. reflexivity.
+Qed.
+
+Lemma first_schema : forall (brs : list branch) (ev : event) (isf x line tb : string) (conds : list cexp)
+                            (ds : list decl) (downstream : stmts) (coll : cexp) (l : list value) (st : state)
+                            (p : value -> bool),
+  String.eqb isf x = false ->
+  lookup isf st = Some (tb, VBool true) ->
+  eval ev st coll = ROk (VVec l) ->
+  (* the guards evaluate (do not fault) on every element, and p says which elements pass *)
+  (forall v, In v l -> guards_pass ev (enter [(x, ("auto", v))] st) conds = ROk (p v)) ->
+  (* whatever runs downstream of the capture does not re-arm the flag, and the guards still evaluate afterwards *)
+  (forall w s, first_passing p l = Some w ->
+     exec_block brs ev (fi_body isf conds ds downstream) [(x, ("auto", w))] st = ROk s ->
+     lookup isf s = Some (tb, VBool false)
+     /\ forall v, In v l -> exists b, guards_pass ev (enter [(x, ("auto", v))] s) conds = ROk b) ->
+  exec_stmts brs ev (fi_lower isf x coll (fi_body isf conds ds downstream) line) st =
+  match first_passing p l with
+  | None => RFault FThrow
+  | Some w => exec_block brs ev (fi_body isf conds ds downstream) [(x, ("auto", w))] st
+  end.
+Proof.
+  intros brs ev isf x line tb conds ds downstream coll l st p Hx HA He Hg Hcap.
+  set (body := fi_body isf conds ds downstream) in *.
+  (* armed phase: the state is st itself until the first passing element *)
+  set (Done := fun s : state =>
+         exists w, first_passing p l = Some w /\ exec_block brs ev body [(x, ("auto", w))] st = ROk s).
+  (* the generic theorem is used at the single armed state st: restate its hypotheses there *)
+  assert (Hrej : forall v, In v l -> p v = false ->
+                 exec_block brs ev body [(x, ("auto", v))] st = ROk st).
+  { intros v Hin Hp. unfold body. rewrite fi_body_step.
+    rewrite nest_reject; [cbn [rbind]; rewrite pop_enter; reflexivity|].
+    rewrite (Hg v Hin). rewrite Hp. reflexivity. }
+  assert (Hdone : forall v s, In v l -> Done s ->
+                  exec_block brs ev body [(x, ("auto", v))] s = ROk s).
+  { intros v s Hin [w [Fw Sw]]. destruct (Hcap w s Fw Sw) as [Hf Hev].
+    destruct (Hev v Hin) as [b Hb].
+    unfold body. rewrite fi_body_step.
+    rewrite (nest_disarmed brs ev isf ds downstream tb conds _ b Hb).
+    - cbn [rbind]. rewrite pop_enter. reflexivity.
+    - rewrite lookup_enter_other; [exact Hf|exact Hx]. }
+  (* direct induction (the generic lemma needs its hypotheses at every armed state; here only st is armed) *)
+  assert (LD : forall l', (forall v, In v l' -> In v l) -> forall s, Done s ->
+               for_loop brs ev x body l' s = ROk s).
+  { induction l' as [|v r IH]; intros Hsub s HD; [reflexivity|rewrite for_loop_cons].
+    rewrite (Hdone v s (Hsub v (or_introl eq_refl)) HD). cbn [rbind].
+    apply IH; [intros v' Hv'; apply Hsub; right; exact Hv'|exact HD]. }
+  assert (LA : forall l', (forall v, In v l' -> In v l) ->
+               (forall w, first_passing p l' = Some w -> first_passing p l = Some w) ->
+               for_loop brs ev x body l' st =
+               match first_passing p l' with
+               | None => ROk st
+               | Some w => exec_block brs ev body [(x, ("auto", w))] st
+               end).
+  { induction l' as [|v r IH]; intros Hsub Hfp; [reflexivity|rewrite for_loop_cons].
+    unfold first_passing in *. cbn [filter] in *.
+    destruct (p v) eqn:E.
+    - destruct (exec_block brs ev body [(x, ("auto", v))] st) as [s'|f|k] eqn:S; cbn [rbind]; try reflexivity.
+      apply LD; [intros v' Hv'; apply Hsub; right; exact Hv'|].
+      exists v. split; [apply Hfp; reflexivity|exact S].
+    - rewrite (Hrej v (Hsub v (or_introl eq_refl)) E). cbn [rbind].
+      apply IH; [intros v' Hv'; apply Hsub; right; exact Hv'|exact Hfp]. }
+  unfold fi_lower. rewrite exec_stmts_cons, exec_for, He. cbn [rbind].
+  rewrite (LA l (fun v H => H) (fun w H => H)).
+  destruct (first_passing p l) as [w|] eqn:F.
+  - destruct (exec_block brs ev body [(x, ("auto", w))] st) as [s'|f|k] eqn:S; cbn [rbind]; try reflexivity.
+    rewrite exec_one.
+    destruct (Hcap w s' eq_refl S) as [Hf _].
+    apply (throw_if_done brs ev isf line s' tb Hf).
+  - cbn [rbind]. rewrite exec_one. apply (throw_if_armed brs ev isf line st tb HA).
+Qed.
+
+(* the conditional's arm of the common shape leaves its own value, converted to the result's type (double) *)
+Lemma arm_value : forall (brs : list branch) (ev : event) (res : string) (ds : list decl) (code : stmts)
+                         (v : cexp) (st st2 : state) (t : string) (old x : value),
+  rbind (run_decls ev ds (enter [] st)) (fun s1 => exec_stmts brs ev code s1) = ROk st2 ->
+  lookup res st2 = Some (t, old) ->
+  frame_get res (hd [] (frames st2)) = None ->
+  eval ev st2 v = ROk x ->
+  exists st3, exec_block brs ev (ie_arm res ds code v) [] st = ROk st3
+              /\ lookup res st3 = Some (t, conv t x).
+Proof. exact operand_value. Qed.
